@@ -98,7 +98,7 @@ def _(case):
 def _(case):
     from socialchoicekit.deterministic_matching import GaleShapley
     from socialchoicekit.profile_utils import StrictProfile
-    R, H = prof(case, "SQ1"), prof(case, "SQ2"); c = np.ones(R.shape[0], dtype=int) * 1
+    R, H = prof(case, "SQ1"), prof(case, "SQ2"); c = np.array(case["caps"], dtype=int)      # capacities from 1 up to more than there are residents
     return [R, H, c], lambda a: sorted(GaleShapley(case["seed"] % 2 == 0, zi()).scf(StrictProfile.of(a[0]), StrictProfile.of(a[1]), a[2]))
 
 @entry("Irving.scf")
@@ -298,7 +298,7 @@ class C20(Prop):
                 yield dict(entry=name, family="monitor", name=name, P=P, SQ1=SQ1, SQ2=SQ2, V=[[rng.random() if rng.random() > .2 else None for _ in range(m)] for _ in range(n)],
                            Vc=cons(P), VSQ=[[rng.random() for _ in range(q)] for _ in range(q)], VSQc=cons(SQ1), ISQ1=icons(SQ1), ISQ2=icons(SQ2), BS=BS,
                            G=[[u, a] for u, a in G.items()], s=0, t=q - 1, BG=[[v, a] for v, a in BG.items()], BX=X, BY=Y,
-                           speeds=[rng.randint(1, 3) for _ in range(q)], k=rng.randint(1, m), lam=rng.randint(1, min(m, q)), seed=k)
+                           speeds=[rng.randint(1, 3) for _ in range(q)], caps=[rng.randint(1, q + 3) for _ in range(q)], k=rng.randint(1, m), lam=rng.randint(1, min(m, q)), seed=k)
 
     def run_one(self, case, dtype):
         f, _ = ENTRIES[case["name"]]
